@@ -416,8 +416,6 @@ DEFECT_MODELS = {
                 'for validation',
     'KF-C12-2': 'an absolute FILE-NAME without RELATIVITY (constant or via a string symbol) is accepted by a '
                 'destination argument and the file is made there',
-    'KF-C12-3': '`dir-contents` accepts -rel-home (option or symbol) and resolves it correctly although `help assert '
-                'dir-contents` does not list it among the accepted relativities',
 }
 
 REJ = {'syntax': {'SYNTAX_ERROR'}, 'validation': {'VALIDATION_ERROR'},
@@ -498,6 +496,8 @@ def check(case, subproc=False) -> Verdict:
         labels.add('class:' + cls)
         if sim.cell and sim.cell[0]:
             labels.add('rejected:%s/%s' % (sim.cell[0], sim.cell[1]))
+        for u_site, u_kind in sim.unlisted:
+            labels.add('unlisted:%s/%s:%s' % (u_site, u_kind, 'accepted' if o.ident == 'PASS' else 'rejected'))
         if case.get('irr'):
             labels.add('gen:' + str(case['irr']).split(':')[0])
         labels.add('outcome:%s' % (o.ident if o.ident in IDENT_EXIT else 'other'))
